@@ -5,8 +5,9 @@
 (* variants, an AEAD, a PRF without variant, a signature family with private / public *)
 (* keys and a dependent field, ML-DSA with its "no prefix but id required" variant, a  *)
 (* JWT MAC with kid strategies), every field over a small domain, two key materials,   *)
-(* two [three] ids including 0.  Every state is ONE case: a pair of keys of the whole   *)
-(* space, a triple of keys of a sub-space (transitivity), or a constructor-refusal      *)
+(* two [three] ids including 0.  Every state is ONE case: a key on its own, a pair (a    *)
+(* key with every key of its family and with a representative of every other Go key     *)
+(* type), a triple of keys of a sub-space (transitivity), or a constructor-refusal      *)
 (* case; its observation is what the implementation model Impl(Fault) answers, and the  *)
 (* invariant is the judgement of KeyLaws.tla.                                          *)
 (*                                                                                    *)
@@ -47,6 +48,11 @@ Space == UNION {KeysOf(T) : T \in MCTypes}
 Space3 == {a \in KeysOf("Hmac") : a.p.keySize = 16 /\ a.p.variant \in {"TINK", "NO_PREFIX"}}
                \cup {a \in KeysOf("MlDsa") : a.p.instance = "ML_DSA_44" /\ a.kind = "private" /\ a.mat = 1}
 
+\* the partners of a key in the pair cases: every key of its own family, and one representative of every Go key type
+CanonP(T) == CHOOSE p \in MCParams(T) : TRUE
+Reps == {a \in Space : a.p = CanonP(a.kt) /\ a.mat = 1 /\ a.id = "01020304"}
+Partners(a) == KeysOf(a.kt) \cup Reps
+
 ASSUME \A a \in Space : WellFormed(a)
 
 \* ------------------------------------------------------------------ the implementation model
@@ -75,7 +81,7 @@ ImplEq(a, b) ==
          /\ (IdReqOf(a) = IdReqOf(b) \/ IdReqOf(a)[1] = NoId \/ IdReqOf(b)[1] = NoId)
     [] F("equal_across_types") ->
          \/ SameKey(a, b)
-         \/ {a.kt, b.kt} = {"Hmac", "HmacPrf"} /\ a.mat = b.mat /\ a.p.keySize = b.p.keySize /\ a.p.hash = b.p.hash
+         \/ {a.kt, b.kt} = {"Hmac", "HmacPrf"} /\ a.mat = b.mat
     [] F("equal_one_directional") ->
          /\ a.kt = b.kt /\ a.kind = b.kind /\ a.mat = b.mat /\ IdReqOf(a) = IdReqOf(b)
          /\ IF "keySize" \in DOMAIN a.p THEN Without(a.p, "keySize") = Without(b.p, "keySize") /\ SizeOf(a) <= SizeOf(b)
@@ -94,7 +100,7 @@ ImplPrefix(a) ==
 
 CustomKid(a) == IF a.kt \in KidTypes /\ a.p.kidStrategy = "CUSTOM" THEN (IF a.mat = 1 THEN "6b6964" ELSE "6b696432") ELSE ""
 ImplKid(a) ==
-  IF a.kt \notin KidTypes THEN <<"", FALSE>>
+  IF ~HasKidAccessor(a) THEN <<"", FALSE>>
   ELSE IF F("kid_not_base64_of_id") /\ a.p.kidStrategy = "BASE64_KEY_ID" THEN <<a.id, TRUE>>
   ELSE KidOf(a, CustomKid(a))
 
@@ -115,7 +121,7 @@ ImplObs(a) ==
   [built |-> TRUE, panic |-> FALSE, gotype |-> a.kt \o "." \o a.kind, ptype |-> a.kt,
    id |-> ImplIdReq(a)[1], req |-> ImplIdReq(a)[2], phas |-> ImplHasReq(a),
    hasprefix |-> a.kt \in PrefixTypes, prefix |-> ImplPrefix(a),
-   haskid |-> a.kt \in KidTypes, kid |-> ImplKid(a)[1], kidset |-> ImplKid(a)[2], ckid |-> CustomKid(a),
+   haskid |-> HasKidAccessor(a), kid |-> ImplKid(a)[1], kidset |-> ImplKid(a)[2], ckid |-> CustomKid(a),
    unstable |-> IF F("unstable_accessor") /\ a.kt = "AesGcm" THEN <<"OutputPrefix">> ELSE <<>>,
    pbuilt |-> ~(F("parameters_not_kept") /\ a.kt = "HmacPrf"), pbuiltR |-> ~(F("parameters_not_kept") /\ a.kt = "HmacPrf"),
    pfresh |-> TRUE, pfreshR |-> TRUE, pself |-> ImplPEq(a, a), self |-> ImplEq(a, a),
@@ -162,7 +168,7 @@ Init ==
 Next ==
   /\ case.what = "single"
   /\ LET a == case.keys[1] IN
-     \/ \E b \in Space : case' = [what |-> "pair", keys |-> <<a, b>>]
+     \/ \E b \in Partners(a) : case' = [what |-> "pair", keys |-> <<a, b>>]
      \/ a \in Space3 /\ \E b \in Space3, c \in Space3 : case' = [what |-> "triple", keys |-> <<a, b, c>>]
      \/ ~HasReq(a.kt, a.p) /\ a.id = "00000000" /\ case' = [what |-> "idref", keys |-> <<a>>]
   /\ bad' = Verdict(case')
